@@ -4,7 +4,7 @@ import TinysetModel.Proofs.Plain2
 import TinysetModel.Proofs.CfgInst
 import TinysetModel.Proofs.Demo
 import TinysetModel.Proofs.TotalSites
-import TinysetModel.Proofs.TotalCfg32
+import TinysetModel.Proofs.Total32Insert
 /-! C20 — every operation terminates.
 Every model function is a total Lean function (structural recursion, or fuel bounded by the table
 length / an explicit fuel argument), so "the model terminates" is checked by Lean's termination
@@ -74,9 +74,11 @@ theorem insert_depth_bounded_u64 {D : Type} (g : Rng D) {r : Rp} (wf : WF cfg64 
     (hsize : capacity r + 64 + 3 ≤ 2 ^ 64 ∧ 3 * len r + 4 + 64 + 3 ≤ 2 ^ 64) (d : D) :
     ∃ r' b d', insert cfg64 g 2 r e d = .ok ((r', b), d') := insert_total_u64_fuel2 g wf e he hsize d
 
-/-- SetU32: the same bound does not hold (small growth draws make the refill grow again); kernel-evaluated witness -/
-theorem regrow_can_nest_u32 : insert cfg32 zeroRng32 3 r32 (2 ^ 20 + 32 * 1024) () = .error .fuel ∧
-    ∃ p, insert cfg32 zeroRng32 4 r32 (2 ^ 20 + 32 * 1024) () = .ok p := ⟨r32_fuel3, r32_fuel4⟩
+/-- SetU32 (repaired growth: a full table of `cap` buckets is regrown to `cap + 1 + cap / 8 + r % cap`): the same
+    bound — recursion depth at most 2 for every well-formed set, every value, every generator and state -/
+theorem insert_depth_bounded_u32 {D : Type} (g : Rng D) {r : Rp} (wf : WF cfg32 r) (e : Nat) (he : e < 2 ^ 32)
+    (hsize : capacity r + 32 + 3 ≤ 2 ^ 32 ∧ 3 * len r + 4 + 32 + 3 ≤ 2 ^ 32) (d : D) :
+    ∃ r' b d', insert cfg32 g 2 r e d = .ok ((r', b), d') := insert_total_u32_fuel2 g wf e he hsize d
 
 end C20
 
@@ -84,3 +86,4 @@ end C20
 #print axioms C20.placeholder_scan_terminates_u32
 #print axioms C20.insert_plain_returns_u64
 #print axioms C20.insert_plain_returns_u32
+#print axioms C20.insert_depth_bounded_u32
